@@ -121,6 +121,13 @@ class RidgeCase:
              "spreading velocity": [[0, [[rng.choice([0.01, 0.02, 0.04, 0.08]) for _ in ridge]]]], "ridge coordinates": [ridge]}
         while len(set(m["spreading velocity"][0][1][0])) < 2:
             m["spreading velocity"][0][1][0][0] = rng.choice([0.005, 0.03, 0.1])
+        if rng.random() < 0.5:
+            # two ridges joined by an oblique transform fault: which ridge a point belongs to is decided by a side test against the transform
+            sh = rng.choice([-2.0, 1.5, 3.0])
+            ra = [[lon0 + w * 0.15, lat0 + h * 0.08], [lon0 + w * 0.3 + rng.choice([-1, 0, 1.25]), lat0 + h * 0.45]]
+            rb = [[lon0 + w * 0.55 + rng.choice([-1.5, 0, 2]), lat0 + h * 0.45 + sh], [lon0 + w * 0.75, lat0 + h * 0.93]]
+            m["ridge coordinates"] = [ra, rb]
+            m["spreading velocity"] = [[0, [[rng.choice([0.01, 0.02]), rng.choice([0.04, 0.08])], [rng.choice([0.03, 0.06]), rng.choice([0.005, 0.1])]]]]
         self.w = {"version": "1.1", "coordinate system": {"model": "spherical", "depth method": "starting point"},
                   "features": [{"model": "oceanic plate", "name": "o", "coordinates": [[lon0, lat0], [lon0 + w, lat0], [lon0 + w, lat0 + h], [lon0, lat0 + h]], "max depth": 250e3,
                                 "temperature models": [m]}]}
@@ -465,7 +472,7 @@ def oracle(seed, tier):
             boundary = True
             if ok:
                 boundary = any(differs(n[1], a[1]) for n in nb)
-            base.append((a, boundary))
+            base.append((a, boundary, nb))
         k0 = k
         for mi, (name, w2, fpt, exact) in enumerate(mv):
             kind = name.split("(")[0].split("+")[0].split("-")[0]
@@ -478,7 +485,7 @@ def oracle(seed, tier):
                 b = parse_answer(out[k])
                 nb = [parse_answer(out[k + 1 + j]) for j in range(6)]
                 k += 7
-                a, boundary = base[qi]
+                a, boundary, nb_a = base[qi]
                 cases += 1
                 # the moved query may itself sit on a decision boundary of the moved world (rounding of the moved coordinates decides there)
                 if b[0] == "ok" and all(n[0] == "ok" for n in nb):
@@ -500,7 +507,11 @@ def oracle(seed, tier):
                     bad = "tag %g became %g" % (a[1][-1], b[1][-1])
                 else:
                     for si, (x, y) in enumerate(zip(a[1], b[1])):
-                        if not close_vals(x, y):
+                        # 'up to rounding': the library's closest-point search stops at a tolerance, so the slab/fault distance carries ~0.1-0.3 m of noise that depends on the
+                        # frame; a field with a steep gradient (1100 K over 75 km across a fault) turns that into more than the relative tolerance.  Allowed: what a displacement
+                        # of the query by half a metre changes, measured on the six neighbours 1 m away in either frame
+                        slack = 0.5 * max([abs(n[1][si] - x) for n in nb_a if n[0] == "ok" and len(n[1]) == len(a[1])] + [abs(n[1][si] - y) for n in nb if n[0] == "ok" and len(n[1]) == len(b[1])] + [0.0])
+                        if not close_vals(x, y) and not (abs(x - y) <= slack):
                             bad = "output slot %d (%s) %r became %r" % (si, ["temperature", "composition 0", "composition 1", "composition 2", "composition 3"][si] if si < 5 else "grains", x, y)
                             break
                 if bad and on_discontinuity(g, p0, os.path.join(wdir, "m_%d_%d.wb" % (wi, mi)), sp, d, fpt, spherical):
